@@ -2,6 +2,7 @@ package chk
 
 import (
 	"fmt"
+	"go/token"
 	"go/types"
 	"sort"
 
@@ -79,7 +80,13 @@ func ruleTeletextNational(p *Prog, l *Ledger, tier string) {
 	}
 	pairs := map[int64]int64{} // G0 position → subset index
 	undecided := ""
-	for _, b := range fn.Blocks {
+	var blocks []*ssa.BasicBlock
+	for _, h := range p.Helpers(fn) {
+		if fnPkg(h) == p.LibSSA {
+			blocks = append(blocks, h.Blocks...)
+		}
+	}
+	for _, b := range blocks {
 		for _, ins := range b.Instrs {
 			switch t := ins.(type) {
 			case *ssa.Store:
@@ -105,18 +112,12 @@ func ruleTeletextNational(p *Prog, l *Ledger, tier string) {
 					undecided = "store with a constant position but a variable sub-set index at " + p.Pos(t.Pos())
 					continue
 				}
-				il, ok := stripConv(dst.Index).(*ssa.UnOp)
+				gl, tidx, ok := globalTableLookup(dst.Index)
 				if !ok {
 					undecided = "position of the store at " + p.Pos(t.Pos()) + " is not a constant-table lookup"
 					continue
 				}
-				tia, ok := il.X.(*ssa.IndexAddr)
-				if !ok {
-					undecided = "position of the store at " + p.Pos(t.Pos()) + " is not a constant-table lookup"
-					continue
-				}
-				gl, ok := tia.X.(*ssa.Global)
-				if !ok || stripConv(tia.Index) != stripConv(src.Index) {
+				if stripConv(tidx) != stripConv(src.Index) {
 					undecided = "position table and sub-set are not indexed by the same variable at " + p.Pos(t.Pos())
 					continue
 				}
@@ -183,4 +184,24 @@ func ruleTeletextNational(p *Prog, l *Ledger, tier string) {
 		l.Fail(rule, name, key, blockPos(p, fn.Blocks[0]), name+": "+bad[0]+fmt.Sprintf(" (%d deviation(s) from ETS 300 706 table 36): text in a non-default national option is decoded with the wrong character", len(bad)))
 	}
 	l.Min(rule, 1, 1)
+}
+
+// globalTableLookup: v (conversions stripped) is element idx of a package-level array or slice:
+// *(&G[idx]), or (*G)[idx] on the array value a range clause copied.
+func globalTableLookup(v ssa.Value) (*ssa.Global, ssa.Value, bool) {
+	switch x := stripConv(v).(type) {
+	case *ssa.UnOp:
+		if ia, ok := x.X.(*ssa.IndexAddr); ok {
+			if gl, ok := ia.X.(*ssa.Global); ok {
+				return gl, ia.Index, true
+			}
+		}
+	case *ssa.Index:
+		if u, ok := x.X.(*ssa.UnOp); ok && u.Op == token.MUL {
+			if gl, ok := u.X.(*ssa.Global); ok {
+				return gl, x.Index, true
+			}
+		}
+	}
+	return nil, nil, false
 }
